@@ -79,6 +79,8 @@ type LoopSpec struct {
 	CountName  string // name for completed iterations of a range loop
 	Invariants []Clause
 	Decreases  *Clause
+	Unroll     int // bounded stand-in: unroll this many iterations (with an unwinding assertion)
+	Asserts    []Clause // checked once, in the state in which the loop is entered
 }
 
 type FuncSpec struct {
@@ -152,6 +154,7 @@ type CallbackSpec struct {
 	Pkg      string
 	Name     string // func type name or "Type.field"
 	Pure     bool
+	Closed   bool // every value of this function type is created by the module's own constructors
 	Modifies []string
 	Props    []string
 }
@@ -360,6 +363,8 @@ func (ss *SpecSet) parseFile(file, pkg, src string) error {
 				switch w {
 				case "pure":
 					cb.Pure = true
+				case "closed":
+					cb.Closed = true
 				case "modifies":
 					for _, m := range strings.Split(r, ",") {
 						cb.Modifies = append(cb.Modifies, strings.TrimSpace(m))
@@ -402,6 +407,8 @@ func (ss *SpecSet) parseFile(file, pkg, src string) error {
 					return fail(sl.line, "invariant outside loop")
 				}
 				curLoop.Invariants = append(curLoop.Invariants, cl)
+			case word == "assert" && curLoop != nil:
+				curLoop.Asserts = append(curLoop.Asserts, cl)
 			case word == "decreases":
 				if curLoop == nil {
 					return fail(sl.line, "decreases outside loop")
@@ -451,6 +458,15 @@ func (ss *SpecSet) parseFile(file, pkg, src string) error {
 				return fail(sl.line, "let: %v", err)
 			}
 			curF.Lets = append(curF.Lets, LetSpec{Name: strings.TrimSpace(rest[:c]), E: e, Old: word == "letold"})
+		case "unroll":
+			if curLoop == nil {
+				return fail(sl.line, "unroll outside loop")
+			}
+			n, err := strconv.Atoi(strings.TrimSpace(rest))
+			if err != nil {
+				return fail(sl.line, "unroll: %v", err)
+			}
+			curLoop.Unroll = n
 		case "inline":
 			if curF != nil {
 				curF.Inline = true
